@@ -391,7 +391,7 @@ func c10AttHostileSession(g gen.G) c10Conn {
 	}
 	add(0x1210, att.Body1210(d, []byte("T9"), []byte("hostile"), []att.File{f}))
 	if g.Bool() {
-		add(0x1211, att.Body1211(f, 0))
+		add(0x1211, att.Body1211(f, g.U8()))
 	}
 	nchunks := 1 + g.Intn(4)
 	remaining := int(size % 4096)
@@ -409,7 +409,7 @@ func c10AttHostileSession(g gen.G) c10Conn {
 		ws = append(ws, append(att.ChunkHeader(d, name, off, ln), data...))
 	}
 	if g.Chance(2, 3) {
-		add(0x1212, att.Body1211(f, 0))
+		add(0x1212, att.Body1211(f, g.U8()))
 	}
 	cn := c10Conn{Writes: ws, Close: core.Pick(g.Rand, []string{"fin", "rst", "linger"})}
 	if g.Chance(1, 3) {
@@ -719,6 +719,27 @@ func c10Att(c *core.Collector, x *Ctx, defaultHandler bool) {
 		c.Inconclusive()
 		return
 	}
+	// opaque one-byte fields swept over all 256 values in otherwise well-formed frames (file type of 0x1211/0x1212, info type of 0x1210)
+	for v := 0; v < 256; v++ {
+		f := att.File{Name: []byte(fmt.Sprintf("sweep%d.bin", v)), Size: 4}
+		bcd := []byte{0, 0, 0, 0x33, byte(v>>4) & 0x7, byte(v & 0x0f)}
+		b1210 := att.Body1210(consts.ActiveSafetyJS, []byte("T5"), []byte("sweep"), []att.File{f})
+		b1210[7+16+32] = byte(v) // info type
+		ws := [][]byte{
+			ref.Build(ref.Params{ID: 0x1210, BCD: bcd, Serial: 1, Body: b1210}),
+			ref.Build(ref.Params{ID: 0x1211, BCD: bcd, Serial: 2, Body: att.Body1211(f, byte(v))}),
+			append(att.ChunkHeader(consts.ActiveSafetyJS, f.Name, 0, 4), 1, 2, 3, 4),
+			ref.Build(ref.Params{ID: 0x1212, BCD: bcd, Serial: 3, Body: att.Body1211(f, byte(v))}),
+		}
+		cn := c10Conn{Writes: ws, Close: "linger"}
+		x.Journal.Log(true, "sweep %d writes=%s", v, c10Hex(cn.Writes))
+		if !c10Send(addr, cn) {
+			c.Violate("accept|new connection refused while hostile connections were served", fmt.Sprintf("type sweep %d", v), nil)
+			return
+		}
+		c.Eval()
+	}
+	c.Count("byte_field_sweep_connections", 256)
 	n := c.N(1200, 6000)
 	canaries := c.Counter("canary_uploads")
 	var awg sync.WaitGroup
